@@ -128,3 +128,173 @@ def g_inv_level(level1, rot, absent, o_dim, mode='symmetric', crop=False):
         return [ll, hr, hi] + g + [o_dim, h_dim, w_dim, mode], {}
     return verify.verify_function('%s[absent=%s,o_dim=%d,%s%s]' % (fn, absent, o_dim, mode, ',crop' if crop else ''), TF, fn, mk,
                                   base, CT.CONTRACTS[TF + ':' + fn], LOW, mv)
+
+
+# ---------------------------------------------------------------------------
+# autograd Functions: forward layout + backward adjointness
+# ---------------------------------------------------------------------------
+from . import adjoint as ADJ
+from .groups_dwt import _fctx
+LEVELS = {k: v for k, v in CT.CONTRACTS.items() if k.startswith(TF + ':') and '.apply' not in k}
+LEVELS['dwt.lowlevel:int_to_mode'] = CD.int_to_mode_contract
+LEVELS['dtcwt.lowlevel:q2c'] = CT.q2c_contract
+LEVELS['dtcwt.lowlevel:c2q'] = CT.c2q_contract
+for _k in ('colfilter', 'rowfilter', 'coldfilt', 'rowdfilt', 'colifilt', 'rowifilt'):
+    LEVELS['dtcwt.lowlevel:' + _k] = CT.CONTRACTS['dtcwt.lowlevel:' + _k]
+FBASE = BASE + [m0 >= 1, m1 >= 1, q0 >= 1, q1 >= 1, m0 % 2 == 1, m1 % 2 == 1]
+FMV = SIZES + [m0, m1, q0, q1]
+
+
+def _hshape(o_dim, ri_dim):
+    perm = CT.layout_perm(o_dim, ri_dim)
+    d = [Bn, C, 6, H, W, 2]
+    return tuple(d[p] for p in perm)
+
+
+def g_function_forward(cls, o_dim, ri_dim, skip=False, absent=None):
+    """FWD_J1 | FWD_J2PLUS | INV_J1 | INV_J2PLUS .forward against the layout contract"""
+    fwd = cls.startswith('FWD')
+    l1 = cls.endswith('J1')
+
+    def mk():
+        if fwd:
+            x = CD.data_tensor('x', (Bn, C, 2 * H, 2 * W) if l1 else (Bn, C, 4 * H, 4 * W))
+            f = _l1_filters(False) if l1 else _qs_filters(False)
+            return [_fctx(), x] + f + [skip, o_dim, ri_dim, 1], {}
+        ll = CD.data_tensor('ll', (Bn, C, 2 * H, 2 * W))
+        hs = CD.data_tensor('hs', _hshape(o_dim, ri_dim))
+        if absent == 'none':
+            hs = None
+        elif absent == '0dim':
+            hs = t_zeros((), dtype=prims.DT_IN, kind='torch')
+        g = _l1_filters(False) if l1 else _qs_filters(False, 'g')
+        return [_fctx(), ll, hs] + g + [o_dim, ri_dim, 1], {}
+    con = CT.CONTRACTS[TF + ':' + cls + '.apply']
+    return verify.verify_function('%s.forward[o_dim=%d,ri_dim=%d%s%s]' % (cls, o_dim, ri_dim, ',skip' if skip else '',
+                                                                        ',highs=' + absent if absent else ''),
+                                  TF, cls + '.forward', mk, FBASE, lambda it, fc, *a: con(it, *a), LEVELS, FMV)
+
+
+def g_function_adjoint(cls, o_dim, ri_dim, needs=(True,), skip=False, canary=False, single_reflection=True, abstract=True):
+    """real forward + real backward of a dual-tree Function: K_bwd == K_fwd^T, under the filter
+    identities the code relies on (level-1 filters symmetric; q-shift tree b = reverse(tree a))"""
+    fwd = cls.startswith('FWD')
+    l1 = cls.endswith('J1')
+    oid = '%s.backward[o_dim=%d,ri_dim=%d,needs=%s%s]' % (cls, o_dim, ri_dim, ''.join('T' if b else 'F' for b in needs),
+                                                        ',skip' if skip else '')
+
+    def filters(pre):
+        if l1 and abstract:
+            return [CT.dt_filter(pre + '0', m0), CT.dt_filter(pre + '1', m1)]
+        if l1:
+            return [CT.sym_filter(pre + '0', m0), CT.sym_filter(pre + '1', m1)]
+        return [CT.dt_filter(pre + '0a', 2 * q0), CT.dt_filter(pre + '1a', 2 * q1),
+                CT.rev_filter(pre + '0a', 2 * q0), CT.rev_filter(pre + '1a', 2 * q1)]
+
+    callees = dict(LEVELS)
+    if abstract:
+        # the real bodies of fwd_j1 / inv_j1 / fwd_j2plus / inv_j2plus are executed; the 1-D column and
+        # row operations are generic linear operators carrying the facts of the 1-D lemmas
+        callees = dict(CT.ABSTRACT)
+        callees['dwt.lowlevel:int_to_mode'] = CD.int_to_mode_contract
+        single_reflection = False
+
+    def run():
+        it = Interp(contracts=callees)
+        if fwd:
+            data = [CD.data_tensor('x', (Bn, C, 2 * H, 2 * W) if l1 else (Bn, C, 4 * H, 4 * W), requires_grad=needs[0])]
+            args = data + filters('h') + [skip, o_dim, ri_dim, 1]
+        else:
+            data = [CD.data_tensor('ll', (Bn, C, 2 * H, 2 * W), requires_grad=needs[0]),
+                    CD.data_tensor('hs', _hshape(o_dim, ri_dim), requires_grad=needs[1])]
+            args = data + filters('g') + [o_dim, ri_dim, 1]
+        fc = _fctx(tuple(needs) + (False,) * (len(args) - len(needs)))
+        out = it.call(TF, cls + '.forward', [fc] + args, {})
+        ys = list(out) if isinstance(out, tuple) else [out]
+        if canary:
+            y0s = ys[0].snap()
+            ys[0] = fresh_like(ys[0].shape, lambda idx: y0s(list(idx[:-1]) + [simp(I(idx[-1]) + 1)]), ys[0])
+        gs_ = [CD.data_tensor('dy%d' % k, y.shape) if y.ndim else t_zeros((), dtype=prims.DT_IN, kind='torch')
+               for k, y in enumerate(ys)]
+        grads = it.call(TF, cls + '.backward', [fc] + gs_, {})
+        return data, ys, gs_, grads
+    obs = []
+    info = {'paths': 0, 'raise_paths': 0}
+    fbase = list(FBASE)
+    if single_reflection:
+        # image at least as large as the filters: every symmetric extension is a single reflection
+        fbase += [2 * H >= m0, 2 * H >= m1, 2 * W >= m0, 2 * W >= m1, 2 * H >= 2 * q0, 2 * H >= 2 * q1, 2 * W >= 2 * q0, 2 * W >= 2 * q1]
+    for k, (c, res) in enumerate(explore(run, fbase)):
+        CUR.ctx = c
+        if c.solver.check() == z3.unsat:
+            continue
+        pid = '%s/path%d' % (oid, k)
+        info['paths'] += 1
+        if res[0] == 'raise':
+            obs.append(Ob(pid + '/unexpected-raise', 'POST', 'refuted', 'path', 0, {'what': '%s: %s' % (res[1].kind, res[1].msg), 'model': {}}))
+            continue
+        data, ys, gs_, grads = res[1]
+        live = [(y, 'dy%d' % q) for q, y in enumerate(ys) if y.ndim]
+        for slot, (d, need) in enumerate(zip(data, needs)):
+            if not need:
+                continue
+            g = grads[slot]
+            nm = d.base.owner.split(':')[1]
+            if g is None:
+                obs.append(Ob('%s/slot%d[%s]-is-None-although-it-requires-grad' % (pid, slot, nm), 'POST', 'refuted', 'structural', 0,
+                              {'model': {}}))
+                continue
+            obs.append(solve.prove('%s/slot%d[%s]/shape' % (pid, slot, nm), 'POST', c.pc,
+                                   z3.And(g.ndim == d.ndim, *[I(a) == I(b) for a, b in zip(g.shape, d.shape)]), FMV))
+            obs += ADJ.adjoint_obs('%s/slot%d[%s]' % (pid, slot, nm), [y for y, _ in live], [n for _, n in live], g, nm, c.pc, FMV)
+        for slot in range(len(data), len(grads)):
+            if grads[slot] is not None:
+                obs.append(Ob('%s/slot%d-not-None' % (pid, slot), 'POST', 'refuted', 'structural', 0))
+        obs += solve.safety_obligations(pid, c, FMV)
+    return obs, info
+
+
+def g_adjoint_1d(kind, hp=False, single_reflection=True):
+    """1-D lemmas behind the hand-written dual-tree gradients (spec/contract level):
+      'f': colfilter(., h)^T == colfilter(., h)                     for symmetric h (odd length)
+      'd': coldfilt(., P, Q, hp)^T == colifilt(., Q, P, hp)         for Q = reverse(P)   (q-shift trees)
+      'i': colifilt(., P, Q, hp)^T == coldfilt(., Q, P, hp)         likewise"""
+    mv = SIZES + [m0, q0]
+    base = [Bn >= 1, C >= 1, H >= 1, W >= 1, m0 >= 1, m0 % 2 == 1, q0 >= 1]
+    if kind == 'f':
+        X = (Bn, C, H, W)
+        if single_reflection:
+            base.append(H >= (m0 - 1) / 2)
+    elif kind == 'd':
+        X = (Bn, C, 4 * H, W)
+        if single_reflection:
+            base.append(4 * H >= 2 * q0)
+    else:
+        X = (Bn, C, 2 * H, W)
+        if single_reflection:
+            base.append(2 * H >= q0)
+    CUR.ctx = Ctx(base)
+    c = ctx()
+    it = Interp()
+    x = CD.data_tensor('x', X)
+    if kind == 'f':
+        h = CT.sym_filter('h', m0)
+        y = CT.COLF(it, x, h, 'symmetric')
+        g = CD.data_tensor('g0', y.shape)
+        back = CT.COLF(it, g, h, 'symmetric')
+    else:
+        P = CT.dt_filter('p', 2 * q0)
+        Q = CT.rev_filter('p', 2 * q0)
+        if kind == 'd':
+            y = CT.COLD(it, x, P, Q, hp, 'symmetric')
+            g = CD.data_tensor('g0', y.shape)
+            back = CT.COLI(it, g, Q, P, hp, 'symmetric')
+        else:
+            y = CT.COLI(it, x, P, Q, hp, 'symmetric')
+            g = CD.data_tensor('g0', y.shape)
+            back = CT.COLD(it, g, Q, P, hp, 'symmetric')
+    oid = 'LEMMA/adjoint-1d[%s%s]' % ({'f': 'colfilter,symmetric h', 'd': 'coldfilt^T==colifilt', 'i': 'colifilt^T==coldfilt'}[kind],
+                                      '' if kind == 'f' else ',highpass=%s' % hp)
+    obs = [solve.prove(oid + '/shape', 'LEMMA', c.pc, z3.And(*[I(a) == I(b) for a, b in zip(back.shape, x.shape)]), mv)]
+    obs += ADJ.adjoint_obs(oid, [y], ['g0'], back, 'x', c.pc, mv, kind='LEMMA')
+    return obs, {}
